@@ -31,10 +31,10 @@ def run(ctx):
                         return out, {"K01_reproduced": 1}
         return out, {"K01_reproduced": 0}
     schedcheck.run(ctx, "C02", PROPS,
-                   [("hours", 150, 1500), ("core", 40, 400), ("subslot", 40, 400), ("alap", 40, 300), ("yearend", 40, 400), ("bookings", 40, 300), ("alapcore", 40, 400), ("midslot", 80, 600)],
+                   [("hours", 150, 1500), ("core", 40, 400), ("subslot", 40, 400), ("alap", 40, 300), ("yearend", 40, 400), ("bookings", 40, 300), ("alapcore", 40, 400), ("midslot", 80, 600), ("grouphours", 60, 500)],
                    ["c02"],
                    ["the tz database (zoneinfo) is an oracle shared with the implementation",
                     "second-level containment is claimed for calendars aligned to the resolution only (K01 is a recorded known finding)",
                     "the project default calendar (Mon-Fri 09-17) is evaluated on the project clock"],
-                   "corpus first; generated calendars: several intervals per day, cross-midnight, day subsets, shifts, IANA zones incl. DST transitions inside the horizon and 30/45-minute offsets, single-day and ranged leaves/vacations/holidays, leaves / vacations / blocking bookings that begin or end inside a slot, resolutions 15-60 min, ASAP and ALAP; the calendar is recomputed by the harness from the abstract project; Gen/WorkingHours* compared on the leaf grid (C13); core projects compared with the extracted scheduler model",
+                   "corpus first; generated calendars: several intervals per day, hours written on a resource group and inherited by its members, cross-midnight, day subsets, shifts, IANA zones incl. DST transitions inside the horizon and 30/45-minute offsets, single-day and ranged leaves/vacations/holidays, leaves / vacations / blocking bookings that begin or end inside a slot, resolutions 15-60 min, ASAP and ALAP; the calendar is recomputed by the harness from the abstract project; Gen/WorkingHours* compared on the leaf grid (C13); core projects compared with the extracted scheduler model",
                    post=post)
